@@ -4016,12 +4016,15 @@ class mulgrid(object):
                                               ((2, 3), 3, (3, 0), 'c'))}}
             # create refined columns (and centre nodes for quadrilaterals that need them):
             centrenodes = {}
-            for col in columns_plus_edge:
+            for col in list(columns_plus_edge):
                 nn = col.num_nodes
                 refined_sides = []
                 for i, corner in enumerate(col.node):
                     if frozenset((corner.name, col.node[(i + 1) % nn].name)) in sidenodes:
                         refined_sides.append(i)
+                if not refined_sides: # (e.g. edge column not next to a refined side)
+                    columns_plus_edge.remove(col)
+                    continue
                 nrefined, istart, irange = transition_type(nn, refined_sides)
                 if (col.num_nodes == 4) and ((nrefined == 4) or
                                              ((nrefined == 2) and (irange == 1))):
